@@ -5,7 +5,12 @@ The session loop is modelled for an arbitrary pool semantics `Sem σ` and an arb
 writes; its verdict on lines outside the canonical fragment).  What is *assumed* and only sampled by the check:
 for every string argparse returns a verdict — it neither raises something the session does not catch, nor prints,
 nor exits.  Everything below holds for all histories: any number of sessions on one pool, lines, completions of
-awaited commands and the pool's own progress interleaved in any order. -/
+awaited commands and the pool's own progress interleaved in any order.
+
+The table-level hypothesis `wellFormed` (see Props/C16.lean) is not needed here: these theorems hold for every table.
+Where the real session nevertheless dies — a subclass with an optional parameter starting with `_` (F2) or a parameter
+called `command` (F4): `KeyError` out of `listen()` — the table is outside `wellFormed`, i.e. outside the scope in which
+the model's `parseLine` stands for the real parser; both are known findings, witnessed on every run. -/
 namespace Taskpool.Control
 
 /-- Ledger of one session over any history: replies written + (1 if a command is being awaited) + lines still
